@@ -2,11 +2,12 @@
 
 (a) impute_points_to_evaluate / _impute_default_config with symbolic integer bounds and symbolic
     partial / duplicate points (values symbolic);
-(b) schedulers (FIFO random / grid / BO pre-fit, Hyperband promotion, synchronous Hyperband) through
+(b) schedulers (FIFO random / grid / BO pre-fit) through
     suggest(): symbolic structure of points_to_evaluate (which keys are present, which of a small
     value set, duplicates), symbolic failures / results in between; validity, types, constants,
     order of initial points, no repeats, 'nothing left' only when a finite space is used up,
-    grid enumerated exactly once."""
+    grid enumerated exactly once;
+(c) PBT's explore step with a symbolic parent value and a symbolic random stream."""
 from symx.runner import Ob, run_property
 from symx import stubs
 from harness.common import make, new_trial
@@ -145,11 +146,62 @@ def h_scheduler(sym, kind="fifo-random", P=2, N=7, seed=3):
     sym.goal("end")
 
 
+def _pbt_domains(sym):
+    from syne_tune.config_space import uniform, randint, choice, finrange, loguniform
+    return {
+        "uniform": (uniform(-1.0, 2.0), lambda: sym.real("v", -1.0, 2.0)),
+        "randint": (randint(-3, 5), lambda: sym.int("v", -3, 5)),
+        "randint-single": (randint(1, 1), lambda: 1),
+        "choice": (choice(["p", "q", "r"]), lambda: ["p", "q", "r"][sym.choice("v", 3)]),
+        "finrange": (finrange(0.25, 1.0, 4), lambda: [0.25, 0.5, 0.75, 1.0][sym.choice("v", 4)]),
+        "finrange-int": (finrange(1, 9, 3, cast_int=True), lambda: [1, 5, 9][sym.choice("v", 3)]),
+        "loguniform": (loguniform(0.5, 8.0), lambda: sym.real("v", 0.5, 8.0)),
+    }
+
+
+def h_pbt_explore(sym, domain="uniform"):
+    """PopulationBasedTraining._explore with a symbolic parent value (a member of the domain) and a SYMBOLIC random
+    stream (the resample / perturb choice, the multiplier, the resampled value): the perturbed configuration has
+    all keys, the constant unchanged, and the value is of the domain's type and inside the domain.  One domain per
+    obligation (the keys are perturbed independently, so the path counts would multiply otherwise)"""
+    from harness.twin import make_scheduler
+    from symx.stubs import SymRandomState
+    stubs.shim_modules(["syne_tune.optimizer.schedulers.pbt", "syne_tune.config_space"])
+    stubs.shim_copy(["syne_tune.optimizer.schedulers.pbt"])
+    sch = make_scheduler("pbt", population_size=2)
+    dom, mk = _pbt_domains(sym)[domain]
+    cs = {"h": dom, "k": 7}
+    parent = {"h": mk(), "k": 7}
+    sch.config_space = cs
+    sch._random_state = SymRandomState(sym, "pbt")
+    new = sch._explore(dict(parent))
+    sym.check(set(new.keys()) == set(cs.keys()), "C06.keys-missing", "explore: %s" % sorted(new.keys()))
+    sym.check(new["k"] == 7, "C06.constant-changed", "explore")
+    v = new["h"]
+    if isinstance(v, (stubs.SymArr, list, tuple)):
+        sym.violation("C06.value-type-or-range", "explore: the value is a sequence")
+    vt = dom.value_type
+    if vt is float:
+        sym.check(isinstance(v, float), "C06.value-type-or-range", "explore: %s value has type %s" % (domain, type(v).__name__))
+    elif vt is int:
+        sym.check(isinstance(v, int) and not isinstance(v, bool), "C06.value-type-or-range", "explore: %s value has type %s" % (domain, type(v).__name__))
+    if domain == "choice":
+        sym.check(v in ("p", "q", "r"), "C06.value-type-or-range", "explore: %r not a category" % (v,))
+    elif domain.startswith("finrange"):
+        sym.check(any(v == u for u in list(dom.values)), "C06.value-type-or-range", "explore: value not among the values of the finite range")
+    else:
+        sym.check(dom.lower <= v <= dom.upper, "C06.value-type-or-range", "explore: value outside [%s, %s]" % (dom.lower, dom.upper))
+    if not (v == parent["h"]):
+        sym.goal("changed")
+    sym.goal("end")
+
+
 ASSUME = [
     "(a) integer bounds and given values symbolic ints in [-4,4]; mid-point rule checked as: uniform(0.5,2) -> 1.25, randint(lo,hi) -> within 1/2 of (lo+hi)/2",
     "(b) finite space randint(1,3) x choice(x,y) x constant (6 configurations); points_to_evaluate: 2 points, each key absent or one of the listed values (symbolic structure, concrete values: configurations end up in string-keyed exclusion lists, so symbolic VALUES inside configurations are not used there)",
     "searchers use their real seeded RandomState (one seed per obligation): 'every seed' is NOT covered for the no-repeat / exhaustion clauses (candidate F5 -- random search giving up after 100 failed draws on a large nearly exhausted space -- is outside these bounds)",
-    "suggestions computed by a fitted GP, KDE/BORE/botorch searchers, HyperTune, DEHB's sampler and PBT exploration are outside the quick tier",
+    "(c) PBT exploration: PopulationBasedTraining._explore on one domain at a time (uniform, randint, single-value randint, choice, finrange float / cast_int, loguniform) with a symbolic parent value and a symbolic random stream; custom explore functions and quantized domains are outside",
+    "suggestions computed by a fitted GP, KDE/BORE/botorch searchers, HyperTune and DEHB's sampler are outside",
 ]
 
 
@@ -163,6 +215,11 @@ def obligations(tier):
                           bounds=dict(space="6 configurations", points_to_evaluate=2, suggest_calls=7, events="complete/fail/pending after each start"),
                           goals=("initial-point", "failure", "end") + (("exhausted",) if kind != "fifo-bo" else ()) + (("grid-complete",) if kind == "fifo-grid" else ()),
                           split=(("pa0", (0, 1, 2, 3)), ("pc0", (0, 1, 2))), budget_s=1500))
+    for dom in ("uniform", "randint", "randint-single", "choice", "finrange", "finrange-int", "loguniform"):
+        obs.append(Ob("C06.c[pbt-explore,%s]" % dom, "props.c06:h_pbt_explore", dict(domain=dom),
+                      bounds=dict(parent="symbolic member of the domain", random_stream="symbolic (every draw)", domain=dom),
+                      goals=("end",) + (("changed",) if dom != "randint-single" else ()), budget_s=600,
+                      stubs=["SymRandomState for PBT's generator", "npshim (clip / log / exp abstraction)", "copy.deepcopy in pbt.py copies containers and shares symbolic leaves"]))
     return obs
 
 
